@@ -13,6 +13,8 @@ INVARIANT C01_ParentsDone
 INVARIANT C03_Conservation
 INVARIANT Inv17
 INVARIANT Inv18
+INVARIANT Inv16
+INVARIANT Inv12
 INVARIANT C06_NotWhileUnfinished
 INVARIANT C06_FinishTick
 INVARIANT C06_Counters
